@@ -2,8 +2,8 @@ SPECIFICATION Spec
 CONSTANT Thread = {t1, t2}
 CONSTANT MaxOps = 3
 CONSTANT AtomicId = TRUE
-CONSTANT StackScratch = FALSE
-CONSTANT PerThreadInit = TRUE
+CONSTANT StackScratch = TRUE
+CONSTANT PerThreadInit = FALSE
 CONSTANT OwnedDrop = TRUE
 INVARIANT NonInterference
 INVARIANT NamesUnique
